@@ -188,6 +188,10 @@ def blank_descriptors(text):
     return DESC_RE.sub(lambda m: ' ' * len(m.group(0)), text)
 
 
+def used_digits(text):
+    return set(re.findall(r'\d', NODE_RE.sub('', DESC_RE.sub('', text))))
+
+
 def free_digit(text):
     used = set(re.findall(r'\d', NODE_RE.sub('', DESC_RE.sub('', text))))
     free = [d for d in '123456789' if d not in used]
@@ -213,12 +217,19 @@ def ring_faults(valid):
         d = free_digit(text)
         if d is None:
             continue
-        # 1: unclosed ring index on every node token that carries no multiplier
+        # 1: unclosed ring index on every node token that carries no multiplier, written as one digit and in
+        #    %nn form (the last node of a fragment text / brace-less pattern included: nothing follows the marker)
+        pct = next(('%%%d' % v for v in (12, 10, 27, 33, 45) if str(v) not in text and all(ch not in used_digits(text) for ch in str(v))), None)
         for (s0, s1, k, n) in toks:
             if n == 1 and not clean[s1:s1 + 1] == '|':
-                new = text[:s1] + d + text[s1:]
-                out.append({'kind': 'ring', 'fault': 1, 's': splice(valid, pi, a, b, new), 'reader_text': reader_text(pi, new),
-                            'graph_text': blank_descriptors(new).replace(' ', ''), 'm': int(d), 'where': [pi, k]})
+                for mk in ([d, pct] if pct else [d]):
+                    new = text[:s1] + mk + text[s1:]
+                    if mk[0] == '%' and re.match(r'\d', text[s1:]):
+                        continue                  # a digit after %nn would be read into the marker
+                    out.append({'kind': 'ring', 'fault': 1, 's': splice(valid, pi, a, b, new), 'reader_text': reader_text(pi, new),
+                                'graph_text': blank_descriptors(new).replace(' ', ''), 'm': int(mk.lstrip('%')),
+                                'where': [pi, k], 'form': 'pct' if mk[0] == '%' else 'digit',
+                                'last': bool(k == toks[-1][2]), 'trailing': text[s1:] != ''})
         # 2: ring bond duplicating every existing edge
         tok_of = {}
         for t in toks:
@@ -417,7 +428,8 @@ class C20(common.Prop):
         cg = {'parts': ['{[#A][#B]|2}', '{#A=[$][#X;w=2]1[#Y][#Z]1[$],#B=[$][#X][$]}'], 'aa': False}
         three = {'parts': ['{[#A]=[#B]}', '{#A=[$][#X][#Y;w=2][$],#B=[$][#Y][$]}', '{#X=[$]CC[$],#Y=[$][O;0.5]C[$]}'],
                  'aa': True}
-        for v in (base, cg, three):
+        cg2 = {'parts': ['{[#A][#B]}', '{#A=[$][#X][$][#Y;w=2],#B=[$][$][#X][#Y]}'], 'aa': False}
+        for v in (base, cg, three, cg2):
             for f in all_faults(v):
                 out.append(dict(f, aa=v['aa'], valid='.'.join(v['parts'])))
         # call histories: a fragment library is built from the very fragment list of the string first
@@ -523,6 +535,8 @@ class C20(common.Prop):
             where = ':%s' % {0: 'base-node', 1: 'atom', 2: 'coarse-fragment-node'}[case['lk']]
         elif case['kind'] in ('ring', 'frag'):
             where = ':level%d' % case['where'][0]
+            if case.get('form') == 'pct':
+                where += ':%nn' + (':last-node' + ('' if case.get('trailing') else ':at-end') if case.get('last') else '')
         hist = 'history:%s:' % case['history']['mode'] if case.get('history') else ''
         return '%sfault%d%s:%dlevels:%s' % (hist, case['fault'], where, levels, impl['exc'] or 'GRAPH')
 
